@@ -203,6 +203,15 @@ func (e *Engine) evCall(c *ast.CallExpr, st *State) []Value {
 					return []Value{{sx("select", h, key), e.typeOf(c)}}
 				}
 			}
+		case "fsplit":
+			// fsplit(lo, mid, hi): instantiation seed for the fold split axioms (used by the `split` directive)
+			if e.isSpecHelper(id) && len(c.Args) == 3 {
+				e.declareWriterTheory()
+				a := e.ev(c.Args[0], st)
+				b := e.ev(c.Args[1], st)
+				d := e.ev(c.Args[2], st)
+				return []Value{{sx("fsplit", a.T, b.T, d.T), types.Typ[types.Bool]}}
+			}
 		case "cat", "sub", "lit", "eps":
 			// byte sequences (abstract sort BSeq): concatenation, the bytes s[lo:hi], the bytes of a string, the empty sequence
 			if e.isSpecHelper(id) {
@@ -633,7 +642,7 @@ func (e *Engine) trackKey(name string, i int) *synth {
 
 func (e *Engine) callStatic0(c *ast.CallExpr, fn *types.Func, sig *types.Signature, recv *Value, args []Value, st *State) []Value {
 	full := fn.FullName()
-	if fd, fpk := e.foldFor(fn); fd != nil && len(args) == 3 {
+	if fd, fpk := e.foldFor(fn); fd != nil && len(args) >= 3 {
 		return []Value{e.foldCall(fd, fpk, fn, args, sig.Results().At(0).Type())}
 	}
 	if res, ok := e.stdStub(full, c, recv, args, sig, st); ok {
@@ -643,7 +652,7 @@ func (e *Engine) callStatic0(c *ast.CallExpr, fn *types.Func, sig *types.Signatu
 	decl, pk := e.declOf(fn)
 	// a unit that only carries a safety sweep (no requires/ensures) says nothing a caller could use: inline it when possible
 	bare := ct != nil && !ct.Trusted && len(ct.Requires) == 0 && len(ct.Ensures) == 0 && decl != nil && e.inlinable(decl)
-	if ct != nil && ct.Clause == nil && (e.spec == 0 || !e.canInlineSpec(decl, fn)) && !(ct.Opts["inline"] == "always") && !bare {
+	if ct != nil && ct.Clause == nil && (e.spec == 0 || !e.canInlineSpec(decl, fn) || ct.Opts["function"] != "") && !(ct.Opts["inline"] == "always") && !bare {
 		return e.applyContract(c, fn, ct, pk, decl, sig, recv, args, st)
 	}
 	if decl != nil && (e.inlinable(decl) || e.spec > 0 && e.canInlineSpec(decl, fn)) && len(e.inlineStack) < 6 && !e.onStack(full) {
@@ -960,7 +969,25 @@ func (e *Engine) applyContract(c *ast.CallExpr, fn *types.Func, ct *Contract, pk
 				cnt = 1
 			}
 			for j := 0; j < cnt; j++ {
-				v := e.havocValue(fn.Name()+"_res", t)
+				var v Value
+				if ct.Opts["function"] != "" && recv == nil {
+					// a mathematical function of its (scalar) arguments: every call is the same application
+					fname := "fn_" + mangle(pkgShort(pk.Path)+"_"+fn.Name()) + fmt.Sprint(ri)
+					var srts, ts []string
+					for _, a := range args {
+						srts = append(srts, e.sortOf(a.Typ))
+						ts = append(ts, a.T)
+					}
+					e.declareFun(fname, srts, e.sortOf(t))
+					v = Value{sx(fname, ts...), t}
+					if e.bound == 0 {
+						if rf := e.rangeFact(v.T, t); rf != "" && rf != "true" {
+							e.assume(st.pc, rf)
+						}
+					}
+				} else {
+					v = e.havocValue(fn.Name()+"_res", t)
+				}
 				e.refBound(st, v)
 				res = append(res, v)
 				if len(names) > 0 {
@@ -978,6 +1005,10 @@ func (e *Engine) applyContract(c *ast.CallExpr, fn *types.Func, ct *Contract, pk
 		}
 	}
 	for _, en := range ct.Ensures {
+		if e.bound > 0 {
+			// under a binder the facts would mention bound variables; the application alone is returned
+			break
+		}
 		e.spec++
 		v := e.ev(en.Expr, post)
 		e.spec--
